@@ -52,5 +52,5 @@ var reviewedRecursion = map[string]string{
 	"tkzNextNOL":              "skips line-end tokens: every step advances the tokenizer, end of input is not a line end",
 	"resolveOneTypeVarD":      "guarded by a depth counter compared with a constant before a no-return call (C16.e2)",
 	"transTRecurse":           "iteration with an explicit bound: the counter is compared with 1000 before a no-return call and incremented at the recursive call",
-	"updateResolver":          "worklist of unification relations: a round feeds on the relations the previous one produced by decomposing type pairs; argued informally (strictly smaller pairs), NOT decided — listed under 'termination in general not decided'",
+	"updateResolverD":         "worklist of unification relations with an explicit bound: the round counter is compared with 1000 before a no-return call and incremented at the recursive call (until fix 6333946 the worklist was unbounded and two cyclic constraints made it run forever)",
 }
